@@ -801,6 +801,29 @@ def analyse_builder(prog, F, W, fn):
             else:
                 F.add('R05b', p, fn, whatp, 'violation', 'no `+= get(caller map, %s)` next to the push_back' % (prog.vars[ev]['name'] if ev is not None else '?'),
                       key='R05b|%s|pairing' % fn.g)
+    # any other search routine of the library run on the spanner from inside the builder
+    wtypes = set()
+    for f in fns:
+        for n in f.walk():
+            if n.k == 'CallExpr' and n.callee and n.callee['g'] == 'boost::get' and len(n.args()) == 2 and \
+                    'edge_desc_impl' in ((prog.base_type(n.args()[1].strip_all().j.get('t')) or {}).get('canon') or ''):
+                wt = prog.base_type(n.args()[0].strip_all().j.get('t')) or {}
+                if wt.get('canon'):
+                    wtypes.add(wt['canon'])
+    for f in fns:
+        for n in f.walk():
+            if n.k == 'CallExpr' and n.callee and n.callee['g'].startswith('parmcb::') and n.callee['g'] != 'parmcb::dijkstra' and \
+                    n.callee.get('in_repo') and len(n.args()) >= 4 and atom(W.world(n.args()[0])) == 'S' and \
+                    not EXACT_ENTRY_RE.match(n.callee['g']):
+                found = True
+                argtypes = {(prog.base_type(a.strip_all().j.get('t')) or {}).get('canon') for a in n.args()}
+                if wtypes and not (argtypes & wtypes):
+                    F.add('R06b', n, fn, what, 'violation',
+                          'the predecessors used for the closing path come from %s, which is not given a weight map: it finds a path with the '
+                          'fewest edges, not the lightest one, so the cycle may weigh more than (2k-1) times the dropped edge' % n.callee['g'],
+                          key='R06b|%s|unweighted-search' % fn.g)
+                else:
+                    F.add('R06b', n, fn, what, 'undecided', 'closing path computed by %s: not a routine in the idiom table' % n.callee['g'])
     if not found:
         F.add('R06b', fn.body, fn, what, 'undecided', 'no call to parmcb::dijkstra in the cycle builder')
 
